@@ -16,6 +16,17 @@ def nd(rows, dtype="int8"):
     return {"t": "nd", "dt": dtype, "sh": sh, "v": flat}
 
 
+def ndf(rows):
+    """float64 array literal (entries 0.0 / 1.0)"""
+    sh = [len(rows), len(rows[0])] if rows and isinstance(rows[0], (list, tuple)) else [len(rows)]
+    flat = [x for r in rows for x in r] if len(sh) == 2 else list(rows)
+    return {"t": "nd", "dt": "float64", "sh": sh, "v": [repr(float(x)) for x in flat]}
+
+
+def npint(x, dt="int64"):
+    return {"t": "nps", "dt": dt, "r": str(int(x))}
+
+
 def lst(items):
     return {"t": "list", "v": list(items)}
 
